@@ -257,6 +257,7 @@ func checkArrayAlgebra(p *Program, r *Report, prop string) {
 	checkSeriesAxisSelectors(p, r, only)
 	checkViewsOwnStrides(p, r, prop)
 	checkRequestedExtents(p, r, prop)
+	checkRunWritesAllValues(p, r, only)
 	r.Rule("R01.5", "views are live: a view object holds nothing but strides and the shared storage (no second element buffer), and what Unroll hands out is the storage itself or gathered in the same call, never a copy cached in the view")
 	// R01.2 / R01.3
 	ats := arrayTypes(p)
@@ -979,6 +980,18 @@ func checkSeriesAxisSelectors(p *Program, r *Report, only func(*arrayType) bool)
 				}
 				// direction of the scan
 				dir := ""
+				// a range loop: the index is phi+1, and the phi carries that very sum round the loop
+				if add, ok := idx.(*ssa.BinOp); ok && add.Op == token.ADD {
+					if ph, ok := add.X.(*ssa.Phi); ok && l.Blocks[ph.Block()] {
+						if cc, isC := constInt(add.Y); isC && cc == 1 {
+							for k, e := range ph.Edges {
+								if k < len(ph.Block().Preds) && l.Blocks[ph.Block().Preds[k]] && e == ssa.Value(add) {
+									dir = "up"
+								}
+							}
+						}
+					}
+				}
 				if ph, ok := idx.(*ssa.Phi); ok && ph.Block() == l.Header {
 					for k, e := range ph.Edges {
 						if k < len(ph.Block().Preds) && l.Blocks[ph.Block().Preds[k]] {
@@ -1271,4 +1284,125 @@ func checkRequestedExtents(p *Program, r *Report, prop string) {
 	}
 	floor := 9
 	r.Floor("R01.10", "slicing primitives storing the extents of a view", n, floor)
+}
+
+// checkRunWritesAllValues (R01.11): a 1-D run write stores every value it was handed. In Apply/Apply1 the vector of
+// values is never cut short: no reslice of the parameter with an upper bound. For an in-bounds run — all the
+// property quantifies over — every value has its cell, so a truncation computed from the extents can only drop
+// values that belong there (a stepped run reaching into the last partial stride loses its final value).
+func checkRunWritesAllValues(p *Program, r *Report, only func(*arrayType) bool) {
+	r.Rule("R01.11", "a run write stores every value it was handed: in Apply and Apply1 of every array type the parameter holding the values is never re-sliced to fewer elements (no vals[:n] / vals[a:b]) before it is written")
+	n := 0
+	for _, at := range arrayTypes(p) {
+		if !only(at) {
+			continue
+		}
+		tname := at.rel + "." + at.named.Obj().Name()
+		for _, nm := range []string{"Apply", "Apply1"} {
+			fn := at.own(nm)
+			if fn == nil || len(fn.Blocks) == 0 {
+				continue
+			}
+			var vals *ssa.Parameter
+			for i, q := range fn.Params {
+				if i == 0 {
+					continue
+				}
+				if sl, ok := q.Type().Underlying().(*types.Slice); ok {
+					if b, isB := sl.Elem().Underlying().(*types.Basic); !isB || b.Info()&types.IsInteger == 0 || q.Name() == "vals" {
+						vals = q
+					}
+				}
+			}
+			if vals == nil {
+				continue
+			}
+			n++
+			key := fmt.Sprintf("%s.%s:all-values", tname, nm)
+			var cut *ssa.Slice
+			eachInstr(fn, func(_ *ssa.BasicBlock, _ int, ins ssa.Instruction) {
+				sl, ok := ins.(*ssa.Slice)
+				if !ok || sl.High == nil && sl.Low == nil {
+					return
+				}
+				for _, o := range origins(sl.X) {
+					if o == ssa.Value(vals) {
+						cut = sl
+					}
+				}
+			})
+			if cut != nil {
+				r.Fail("R01.11", key, p.Pos(cut.Pos()), nm+" cuts the vector of values it was handed before writing it: for an in-bounds run every value has its cell, so whatever the cut drops is an addressed element that is not written (a stepped run that reaches into the last partial stride of the axis loses its final value)")
+			} else {
+				r.OK("R01.11", fmt.Sprintf("%s.%s: the values are written as handed in", tname, nm))
+			}
+		}
+	}
+	// a block write visits the whole of its source: the shape ApplySlice enumerates (the argument of Product /
+	// Increment / a walker) is the very result of vals.Shape(), never a copy with entries changed
+	for _, at := range arrayTypes(p) {
+		if !only(at) {
+			continue
+		}
+		fn := at.own("ApplySlice")
+		if fn == nil || len(fn.Blocks) == 0 {
+			continue
+		}
+		tname := at.rel + "." + at.named.Obj().Name()
+		var src *ssa.Parameter
+		for i, q := range fn.Params {
+			if i > 0 && isNDType(q.Type()) {
+				src = q
+			}
+		}
+		if src == nil {
+			continue
+		}
+		k := 0
+		for _, c := range callsIn(fn) {
+			f := c.Common().StaticCallee()
+			if f == nil || c.Common().IsInvoke() {
+				continue
+			}
+			ai := -1
+			switch f.Name() {
+			case "Product":
+				ai = 0
+			case "Increment":
+				ai = 1
+			default:
+				if strings.HasPrefix(f.Name(), "new") && strings.Contains(strings.ToLower(f.Name()), "walker") {
+					ai = 0
+				}
+			}
+			if ai < 0 || ai >= len(c.Common().Args) {
+				continue
+			}
+			k++
+			n++
+			key := fmt.Sprintf("%s.ApplySlice:source-shape#%d", tname, k)
+			good := true
+			for _, o := range origins(c.Common().Args[ai]) {
+				// a re-slice keeps the source's own entries (`shape[:last]` when the last axis is written run by run:
+				// which axes a loop covers is R02.7's question)
+				for depth := 0; depth < 3; depth++ {
+					sl, isSlice := o.(*ssa.Slice)
+					if !isSlice {
+						break
+					}
+					o = origin1(sl.X)
+				}
+				sc, ok := o.(*ssa.Call)
+				if !ok || callName(sc.Common()) != "Shape" || origin1(recvOf(sc.Common())) != ssa.Value(src) {
+					good = false
+				}
+			}
+			if good {
+				r.OK("R01.11", fmt.Sprintf("%s.ApplySlice: enumerates the source's own shape", tname))
+			} else {
+				r.Fail("R01.11", key, p.Pos(c.Pos()), "ApplySlice enumerates a shape other than the source's own Shape(): for an in-bounds block every element of the source has its cell, so a shape recomputed from the destination's extents can only leave addressed elements unwritten (a stepped block reaching into the last partial stride loses its last row or column)")
+			}
+		}
+	}
+	r.Floor("R01.11", "run-write methods", n, 16)
 }
